@@ -278,6 +278,11 @@ class StrSym:
             if fn == "str":
                 w = "str"
             return self._wrap(inner, w)
+        if fn in ("re.sub", "sub", "re.subn") and len(e.args) >= 3:
+            pat = ctx.folder.try_fold(mod, e.args[0], self._cls(fi))
+            rep = ctx.folder.try_fold(mod, e.args[1], self._cls(fi))
+            inner = self._ev(fi, mod, e.args[2], env, depth)
+            return self._wrap(inner, f"re.sub({pat!r},{rep!r})" if isinstance(pat, str) and isinstance(rep, str) else "re.sub(?)")
         short = fn.split(".")[-1]
         if short in self.opaque and e.args:
             return self._wrap(self._ev(fi, mod, e.args[0], env, depth), short)
